@@ -64,6 +64,10 @@ def gen_case(rng):
                 ncore = rng.randrange(2, 6)
                 first = n_genes - rng.randrange(1, ncore)
         product = rng.choice(products) + str(j)
+        if protos and rng.random() < 0.15:
+            product = rng.choice(protos)["product"] + "-like"      # a name containing another product's name
+            if any(p["product"] == product for p in protos):
+                product += str(j)
         core_genes = [(first + k) % n_genes for k in range(ncore)]
         if not circular and first + ncore > n_genes:
             continue
